@@ -29,6 +29,14 @@ entirely (and strongly) negative or far above 0 V - each combined with alpha in 
 unit-change alphabet (compared with the affine image of the base result), and because the offset record is itself a two-level
 waveform with levels alpha a + beta < alpha b + beta, the absolute bands of the statement are asserted on its result as well.
 
+Parity-structured sparse patterns (added after seeded wave 5): part `eye-parity` enumerates the family {mostly marks, mostly
+spaces} x {isolated single-slot, two-slot, three-slot exceptions} x {every exception starts on an even slot, on an odd slot,
+alternately} x {as generated, shifted cyclically by one slot} x a few exception counts x {128, 64 slots}.  GET_EYE folds the record
+into a 2-slot window, so these legal records show one level in one of the two eye openings only, or put every transition on one
+of the two crossings, or all rising edges on one crossing and all falling edges on the other.  Same oracles (bands on the base
+record, affine image for the five unit changes); the level / spread clause of a symbol is asserted when the eye opening that
+holds fewest slots of it still holds enough of them for the sampling error to be small against the band.
+
 The waveform is built without the library (own LFSR for the PRBS bits, np.kron, scipy
 Bessel/sosfiltfilt, a private RandomState); only GET_EYE (and gv for sps) is under test.
 """
@@ -184,8 +192,116 @@ def admissible(bits):
     return bits.min() == 0 and bits.max() == 1 and int(np.count_nonzero(np.diff(bits.astype(int)))) >= 15
 
 
+# ---- seeded wave 5: parity-structured sparse patterns (part eye-parity).  GET_EYE folds the record into a 2-slot window: the
+# slots of one parity fill the central eye opening, the slots of the other parity the second opening (split over the window
+# edges); the slot boundaries even|odd fall on one crossing, the boundaries odd|even on the other.  A sparse pattern whose
+# exceptions (runs of the minority symbol) all start on slots of ONE parity therefore shows one of the two levels in one opening
+# only (single-slot exceptions), puts every transition on ONE crossing (two-slot exceptions), or puts all rising edges on one
+# crossing and all falling edges on the other (three-slot exceptions).  All of them are legal under "both symbols present".
+# Member name: par-<majority m|s><exception length 1|2|3><start parity e|o|x><shift 0|1>n<number of exceptions>:<slots>
+PAR_MAJ = ('m', 's')            # mostly marks with exceptional spaces / mostly spaces with exceptional marks
+PAR_LEN = (1, 2, 3)             # isolated single-slot / two-slot / three-slot exceptions
+PAR_PARITY = ('e', 'o', 'x')    # every exception starts on an even slot / on an odd slot / alternately even and odd (mixed)
+PAR_SHIFT = (0, 1)              # the pattern as generated / cyclically shifted by one slot (an exception may then straddle the record edge)
+PAR_SLOTS = (128, 64)
+
+
+def par_counts(length, slots):
+    """exception counts: 8 (= 16 transitions, the fewest the harness admits), 12, and for single-slot exceptions 24 (the minority
+    symbol then fills 24 slots: the spread clause is asserted for it); 64-slot records: 8 only (denser packings are not sparse)"""
+    return (8,) if slots < 128 else ((8, 12, 24) if length == 1 else (8, 12))
+
+
+def par_name(maj, length, parity, shift, count, slots):
+    return f'par-{maj}{length}{parity}{shift}n{count}:{slots}'
+
+
+def par_family(slots_list=PAR_SLOTS):
+    """every member of the family, simplest first (128 slots before 64; fewest exceptions first)"""
+    return [par_name(m, L, q, sh, c, n) for n in slots_list for c in (8, 12, 24) for m in PAR_MAJ for L in PAR_LEN
+            for q in PAR_PARITY for sh in PAR_SHIFT if c in par_counts(L, n)]
+
+
+def par_representatives():
+    """one pattern per (majority, exception length, parity, shift): 128 slots, the count at which the minority symbol fills 24
+    slots (24 single-slot, 12 two-slot, 8 three-slot exceptions), so that every clause of the statement is asserted"""
+    return [par_name(m, L, q, sh, 24 // L, 128) for m in PAR_MAJ for L in PAR_LEN for q in PAR_PARITY for sh in PAR_SHIFT]
+
+
+def par_parse(kind):
+    body, count = kind[4:].split('n')
+    return body[0], int(body[1]), body[2], int(body[3]), int(count)
+
+
+def par_starts(bits_unshifted, maj):
+    """start slots of the exceptions of an unshifted member (runs of the minority symbol)"""
+    exc = (bits_unshifted == (0 if maj == 'm' else 1)).astype(int)
+    return np.flatnonzero(np.diff(np.concatenate([[0], exc])) == 1)
+
+
+def par_class(name):
+    """input class of a family member for the violation keys: majority symbol + exception length / one parity or mixed"""
+    maj, length, parity, shift, count = par_parse(name.split(':')[0])
+    return f'par={maj}{length}/' + ('mixed' if parity == 'x' else 'one-parity')
+
+
+def opening_counts(used):
+    """{symbol: number of slots of that symbol in the eye opening that holds FEWEST of them}.  The two eye openings of the 2-slot
+    window are the two slot parities; only openings that show both symbols count (GET_EYE has to measure both levels in one
+    opening); 0 when neither opening shows both symbols"""
+    u = np.asarray(used).astype(int)
+    both = [q for q in (0, 1) if 0 < int(u[q::2].sum()) < u[q::2].size]
+    return {sym: min([int(np.count_nonzero(u[q::2] == sym)) for q in both], default=0) for sym in (0, 1)}
+
+
+MIN_SLOTS = 24           # spread clause: asserted for a symbol with at least 24 slots (see check_bands)
+ISI_ISOLATED = 0.035     # an isolated single-slot pulse of the harness waveform stays <= 3.5 % of b-a short of its level (self-test)
+
+
+def parity_unasserted(used, sigma, d):
+    """clauses that are NOT asserted on a parity-structured record because too few slots stand behind the estimate.  GET_EYE
+    measures both levels inside ONE eye opening, i.e. on the slots of one parity; n = slots of the symbol in the opening that holds
+    fewest of them (opening_counts).  Spread: the existing 24-slot rule (scatter of a sample standard deviation ~ 1/sqrt(2(n-1)),
+    P(s < sigma/2) ~ 6e-3 for n = 12, 3e-5 for n = 24), applied to that opening.  Level: the mean over n slots scatters by
+    sigma/sqrt(n) (one independent noise sample per slot inside the 10 % window at sps = 8) on top of the <= 3.5 % that an isolated
+    pulse stays short of its level; the 8 % band is asserted when four standard errors fit into the remaining 4.5 %."""
+    n = opening_counts(used)
+    rare = tuple(k for k, sym in (('s0', 0), ('s1', 1)) if n[sym] < MIN_SLOTS)
+    weak = tuple(k for k, sym in (('mu0', 0), ('mu1', 1))
+                 if n[sym] == 0 or 4.0 * sigma / np.sqrt(n[sym]) > (BAND_MU - ISI_ISOLATED) * d)
+    return rare, weak
+
+
+def _draw_parity(kind, n, rs):
+    """random sequential placement: candidate start slots of the demanded parity in random order, a candidate is accepted when its
+    slots and the slot before / after it are free (exceptions never touch each other); None when the count was not reached"""
+    maj, length, parity, shift, count = par_parse(kind)
+    occupied = np.zeros(n, dtype=bool)
+    starts = []
+    for want in ([0] * count if parity == 'e' else [1] * count if parity == 'o' else [j % 2 for j in range(count)]):
+        cand = np.arange(want, n - length + 1, 2)          # the exception itself never wraps before the shift ...
+        for s in cand[rs.permutation(cand.size)]:
+            if not occupied[np.arange(s - 1, s + length + 1) % n].any():    # ... but "touching" is cyclic (the shift is)
+                occupied[s:s + length] = True
+                starts.append(int(s))
+                break
+        else:
+            return None
+    bits = np.full(n, 1 if maj == 'm' else 0, dtype=np.uint8)
+    bits[occupied] = 0 if maj == 'm' else 1
+    assert sorted(starts) == list(par_starts(bits, maj)) and int(occupied.sum()) == count * length
+    return np.roll(bits, shift)
+
+
 def _draw_bits(kind, n, seed, attempt):
     salt = 15485863 * attempt          # attempt 0 = the content used before the redraw loop existed
+    if kind.startswith('par-'):
+        rs = np.random.RandomState((seed * 1000003 + 611953 + zlib.crc32(f'{kind}:{n}'.encode()) + salt) % (2 ** 32))
+        for _ in range(32):
+            bits = _draw_parity(kind, n, rs)
+            if bits is not None:
+                return bits
+        raise AssertionError(f'no placement for {kind}:{n}')
     if kind == 'ppm16':
         rs = np.random.RandomState((seed * 1000003 + 104729 + salt) % (2 ** 32))
         bits = np.zeros(n, dtype=np.uint8)
@@ -370,7 +486,8 @@ def amp_class(pp):
 
 
 # ------------------------------------------------------------------ oracle: bands of the statement
-def check_bands(out, a, b, sigma, sps, tag, rare=()):
+def check_bands(out, a, b, sigma, sps, tag, rare=(), weak=()):
+    """rare: spread clauses (s0 / s1) not asserted; weak: level clauses (mu0 / mu1) not asserted (parity_unasserted)"""
     d = b - a
     cls = amp_class(d)
     v = []
@@ -380,9 +497,9 @@ def check_bands(out, a, b, sigma, sps, tag, rare=()):
     if bad:
         v.append((f'eye:not-finite:{cls}', f'{bad} not finite; {ctxt}'))
     ok = lambda *ks: all(val[k] is not None and np.isfinite(val[k]) for k in ks)
-    if ok('mu0') and abs(val['mu0'] - a) > BAND_MU * d:
+    if ok('mu0') and 'mu0' not in weak and abs(val['mu0'] - a) > BAND_MU * d:
         v.append((f'eye:mu0-band:{cls}', f'|mu0-a|={abs(val["mu0"]-a):g} > 8%(b-a)={BAND_MU*d:g}; {ctxt}'))
-    if ok('mu1') and abs(val['mu1'] - b) > BAND_MU * d:
+    if ok('mu1') and 'mu1' not in weak and abs(val['mu1'] - b) > BAND_MU * d:
         v.append((f'eye:mu1-band:{cls}', f'|mu1-b|={abs(val["mu1"]-b):g} > 8%(b-a)={BAND_MU*d:g}; {ctxt}'))
     for s in ('s0', 's1'):
         # The spread of a symbol that occupies fewer than 24 slots is estimated from fewer than 24 independent samples: its
@@ -541,7 +658,12 @@ def eye_case(case):
     rare = tuple(s for s, n in (('s0', n0), ('s1', n1)) if n < 24)
     if quant and sigma < MIN_SIGMA_COUNTS:               # rounding to whole counts is not small against the noise: no spread clause
         rare = ('s0', 's1')
-    viol += check_bands(base, a, b, sigma, sps, tag, rare)
+    weak, pcls = (), ''
+    if pat.startswith('par-'):                           # parity-structured record: counts per eye opening, class in the keys
+        r2, weak = parity_unasserted(used, sigma, b - a)
+        rare = tuple(sorted(set(rare) | set(r2)))
+        pcls = par_class(pat)
+    viol += [(k + (',' + pcls if pcls else ''), m) for k, m in check_bands(base, a, b, sigma, sps, tag, rare, weak)]
     obs = [canon(base)]
     ncalls, nskip = 1, 0
     xmax, nmax = float(np.max(np.abs(x))), float(np.max(np.abs(noise)))
@@ -550,6 +672,7 @@ def eye_case(case):
     for j in eq:
         var = VARIANTS[j]
         alpha, beta, beta_txt, form, floor, lowprec, struct = variant_info(var, sigma, xmax, nmax, nwin, rec)
+        form = ','.join(p_ for p_ in (form, pcls) if p_)
         o = obj(alpha, beta, var[2], var[3])
         # reduced-precision samples: the record must still carry its noise (rounding of the samples <= sigma/8)
         prec = {'f32': 2 * U32, 'f16': EPS16}.get(var[3], 0.0) * (abs(beta) + alpha * xmax)
@@ -567,7 +690,7 @@ def eye_case(case):
         if lowprec or (struct and BAND_PP[0] * (1 - 1e-9) <= alpha * (b - a) <= BAND_PP[1] * (1 + 1e-9)):
             sfx = ','.join(p_ for p_ in (f'beta={beta_txt}' if struct else '', form) if p_)
             viol += [(k + ',' + sfx, m) for k, m in
-                     check_bands(out, alpha * a + beta, alpha * b + beta, alpha * sigma, sps, tag + f' [{sfx}]', rare)]
+                     check_bands(out, alpha * a + beta, alpha * b + beta, alpha * sigma, sps, tag + f' [{sfx}]', rare, weak)]
         obs.append(canon(out))
     # one message per key per case
     seen, vv = set(), []
@@ -665,6 +788,49 @@ def selftest_case(case):
         lo = (al * xs + variant_info(V(al, ('max', -0.01)), 0.01, 6.2, 0.05, 512, rec)[1]).max()
         assert abs(hi / al - 0.01) < 1e-12 and abs(lo / al + 0.01) < 1e-12
     assert check_equiv(good, dict(good, s0=0.013), 1.0, 0.0, 1.0, 1.05, 'self', beta_txt='0V@0')[0][0] == 'equiv:levels:pp=1e+00V->1e+00V,beta=0V@0'
+    # seeded wave 5: parity-structured patterns
+    fam, reps = par_family(), par_representatives()
+    assert len(fam) == len(set(fam)) == 2 * 3 * 2 * (7 + 3) == 120 and len(reps) == 36 and set(reps) <= set(fam)
+    assert par_parse('par-m1x0n24') == ('m', 1, 'x', 0, 24) and par_class('par-s2e1n12:128') == 'par=s2/one-parity'
+    assert par_class('par-m3x0n8:64') == 'par=m3/mixed'
+    for seed_ in (0, 1):
+        for name in fam:
+            maj, length, parity, shift, count = par_parse(name.split(':')[0])
+            bb = pattern_bits(name, seed_)
+            nsl = pattern_slots(name)[2]
+            assert bb.size == nsl == analysed_slots(name) and admissible(bb)
+            b0 = np.roll(bb, -shift)                     # the member before the cyclic shift
+            st = par_starts(b0, maj)
+            minority = 0 if maj == 'm' else 1
+            assert st.size == count and int(np.count_nonzero(bb == minority)) == count * length
+            for s_ in st:                                # runs of exactly `length` slots with the majority symbol either side (cyclically)
+                assert all(b0[(s_ + j) % nsl] == minority for j in range(length))
+                assert b0[(s_ - 1) % nsl] != minority and b0[(s_ + length) % nsl] != minority
+            par = set(int(s_) % 2 for s_ in st)
+            assert par == {'e': {0}, 'o': {1}, 'x': {0, 1}}[parity], (name, par)
+            # what the structure means for the 2-slot window: single-slot exceptions of one parity leave one opening with one level
+            oc = opening_counts(bb)
+            if length == 1 and parity != 'x':
+                q = ({'e': 0, 'o': 1}[parity] + shift) % 2
+                assert set(bb[1 - q::2]) == {1 - minority} and oc[minority] == count
+            if length == 2 and parity != 'x':           # every transition on boundaries of one parity
+                tr = np.flatnonzero(np.diff(np.concatenate([bb, bb[:1]]).astype(int)))
+                assert len(set(int(t_) % 2 for t_ in tr)) == 1
+    assert opening_counts(np.array([1, 0] * 8)) == {0: 0, 1: 0}                        # neither opening shows both symbols
+    assert opening_counts(np.array([1, 1, 0, 1, 1, 1, 0, 1])) == {0: 2, 1: 2}         # spaces on even slots only
+    assert opening_counts(np.array([0, 1, 1, 0, 0, 0, 1, 0, 0, 0])) == {0: 3, 1: 1}
+    uu = np.ones(128, dtype=int); uu[0:48:2] = 0                                       # 24 isolated spaces on even slots
+    assert parity_unasserted(uu, 0.05, 1.0) == ((), ()) and parity_unasserted(uu[:96], 0.05, 1.0) == ((), ())
+    uu[46] = 1                                                                         # 23 spaces
+    assert parity_unasserted(uu, 0.05, 1.0) == (('s0',), ()) and parity_unasserted(uu, 0.05, 1.0)[1] == ()
+    uu[8:48] = 1                                                                       # 4 spaces: level clause only for small noise
+    assert parity_unasserted(uu, 0.05, 1.0) == (('s0',), ('mu0',)) and parity_unasserted(uu, 0.02, 1.0) == (('s0',), ())
+    assert check_bands(dict(good, mu0=0.09), 0.0, 1.0, 0.01, 8, 'self', weak=('mu0',)) == []
+    assert check_bands(dict(good, mu1=0.9), 0.0, 1.0, 0.01, 8, 'self', weak=('mu0',))
+    iso = np.ones(32); iso[16] = 0
+    for sps in SPS:                                      # isolated single-slot pulse of the harness waveform: depth, 50 % points
+        w_ = waveform01(iso, sps)
+        assert 0.02 < w_.min() <= ISI_ISOLATED and abs(w_[16 * sps - 1] + w_[16 * sps] - 1) < 1e-3
     # low-precision index rule and form suffix of the keys
     assert check_equiv(good, dict(good, t_opt=good['t_opt'] + STEP, i=5), 1.0, 0.0, 1.0, 1.05, 'self', lowprec=True) == []
     assert check_equiv(good, dict(good, t_opt=good['t_opt'] + STEP, i=5), 1.0, 0.0, 1.0, 1.05, 'self')
@@ -818,6 +984,21 @@ def enumerate_offsets(ctx):
     return [(ctx.seed, PATTERNS[p], SPS[s], LEVELS[l], g, 0, KSEEDS[k], eq) for (p, s, l, g, k), eq in vecs]
 
 
+def enumerate_parity(ctx):
+    """part eye-parity.  quick: one representative per (majority, exception length, parity, shift) - 128 slots, 24 minority slots -
+    at sps 8, level pair (0,1), KMeans seed 0 and the two ends of the noise range (0.5 % and 5 %), all 5 unit changes.
+    thorough: every member of the family x sps x sigma x KMeans seed for the level pair (0,1) with all 5 unit changes, and every
+    member with each other level pair on the simplest (sps, sigma, KMeans seed) vector with one pure scaling and one pure offset"""
+    eq_all = tuple(range(N_UNIT))
+    if ctx.quick:
+        return [(ctx.seed, p, SPS[0], LEVELS[0], g, 0, KSEEDS[0], eq_all) for g in (0, len(SIGMA_PCT) - 1) for p in par_representatives()]
+    fam = par_family()
+    full = sorted(itertools.product(range(len(SPS)), range(len(SIGMA_PCT)), range(len(KSEEDS))), key=lambda v: (sum(1 for x in v if x), v))
+    cases = [(ctx.seed, p, SPS[s_], LEVELS[0], g, 0, KSEEDS[k], eq_all) for (s_, g, k) in full for p in fam]
+    cases += [(ctx.seed, p, SPS[0], lv, 0, 0, KSEEDS[0], EQ_FEW) for lv in LEVELS[1:] for p in fam]
+    return cases
+
+
 # minimal inputs of the two confirmed defects (fixed content: harness seed 0), executed in both tiers
 REGRESS = [
     # proposed_fixes/C17_1: crossing KMeans on raw (t, volts): t_left == t_right, nan levels for b-a = 100 V
@@ -862,6 +1043,14 @@ def run(ctx):
              f'pair, sigma, KMeans seed) vector, thin slice of {len(OFFS_FEW)} on the vectors with one deviation; thorough: all '
              'variants on the full product pattern x sps x sigma x KMeans seed for the level pair (0,1) and on all vectors within '
              '<= 2 deviations')
+    ctx.rule('part eye-parity: parity-structured sparse patterns {mostly marks, mostly spaces} x {single-slot, two-slot, three-slot '
+             'exceptions, never touching each other} x {every exception starts on an even slot, on an odd slot, alternately even / odd} '
+             'x {as generated, shifted cyclically by one slot} x exception count {8, 12, and 24 for single-slot exceptions} x {128 '
+             f'slots; 64 slots with 8 exceptions}} = {len(par_family())} patterns (positions drawn from VERIF_SEED); same oracles as part eye; '
+             'level / spread clause of a symbol asserted when the eye opening (slot parity) with fewest slots of it holds >= 24 (spread) '
+             'resp. enough for 4 sigma/sqrt(n) <= 4.5 % of b-a (level). quick: one representative per (majority, length, parity, shift) '
+             f'= {len(par_representatives())} patterns (128 slots, 24 minority slots) at sps 8, (0,1), KMeans seed 0, sigma 0.5 % and 5 %; thorough: every '
+             'pattern x sps x sigma x KMeans seed for (0,1), every pattern x the other level pairs on the simplest vector')
     ctx.assume('numpy.random.seed(k) fixes every draw of sklearn KMeans (random_state=None uses the global RNG); '
                'workers are single-threaded so KMeans is deterministic')
     ctx.assume('scipy.signal.bessel/sosfiltfilt (the mild band-limit of the harness waveform) and RandomState are correct')
@@ -904,6 +1093,11 @@ def run(ctx):
     ctx.space('offsets.cases_all_variants', sum(1 for c in ocases if c[7] == OFFS_ALL))
     ctx.space('offsets.cases_thin_slice', sum(1 for c in ocases if c[7] == OFFS_FEW))
     ctx.pmap('eye-offsets', eye_case, ocases, horizon=300, chunk=1)
+    pcases = enumerate_parity(ctx)
+    ctx.space('parity.family_members', len(par_representatives()), quiet=True)
+    ctx.space('parity.patterns', len({c[1] for c in pcases}))
+    ctx.space('parity.cases', len(pcases))
+    ctx.pmap('eye-parity', eye_case, pcases, horizon=60, chunk=4)
     # one long case = 3 ... 6 calls of 0.6 s (idle); generous horizon because the machine is shared; recheck 2 (re-runs are serial)
     ctx.pmap('eye-long', eye_case, enumerate_long(ctx), horizon=600, chunk=1, recheck=2)
     ctx.extra['get_eye_calls'] = ctx.stats.get('GET_EYE_calls', 0)
